@@ -1080,13 +1080,28 @@ func (e *Engine) rangeIter(fr *frame, x Value, t types.Type) iter {
 
 // ---- builtins ----
 
-func (e *Engine) callBuiltin(caller *frame, callpos token.Pos, fn *ssa.Builtin, args []Value) Value {
+func (e *Engine) callBuiltin(caller *frame, callpos token.Pos, fn *ssa.Builtin, args []Value) (ret Value) {
 	switch fn.Name() {
 	case "append":
 		if len(args) == 1 {
 			return args[0]
 		}
 		a0, _ := args[0].([]Value)
+		defer func(oldCap int) {
+			// cells of a grown backing array beyond len hold zero values, as in Go
+			if r, ok := ret.([]Value); ok && cap(r) != oldCap {
+				full := r[:cap(r)]
+				var z Value
+				for i := len(r); i < len(full); i++ {
+					if full[i] == nil {
+						if z == nil {
+							z = e.zero(fn.Type().(*types.Signature).Params().At(0).Type().Underlying().(*types.Slice).Elem())
+						}
+						full[i] = copyVal(z)
+					}
+				}
+			}
+		}(cap(a0))
 		switch a1 := args[1].(type) {
 		case Str:
 			n := a1.Len()
